@@ -1,10 +1,31 @@
-"""Sidecar contracts for the dataset filters (C08)."""
+"""Sidecar contracts for the dataset filters (C08).
+
+"Each built-in filter returns a new dataset whose mazes are exactly those of the input that satisfy its documented rule, in their
+original order" is stated with `is_filter(result.mazes, dataset.mazes, lambda k: rule(k))` (pyvc/filt.py): the comprehension / append
+loop of the real code yields the keep-predicate the code actually computes and the obligation is that it agrees with the rule on
+every index.  Arrays are values in the encoding, so "the input is left unchanged" is NOT decided here (A-alias): the bounded
+stand-in snapshots the input around every filter."""
 from pyvc.contracts import contract, Loop, REGISTRY
 from pyvc import tys as T
-from contracts.serialization import SOLVED, CFG
+from contracts.serialization import SOLVED
 
 MD = "maze_dataset/dataset/maze_dataset.py"
-REGISTRY.inlinable.update({(MD, "MazeDataset.__len__"), (MD, "MazeDataset.__getitem__")})
+REGISTRY.class_files.update({"MazeDataset": MD})
+REGISTRY.inlinable.update({(MD, "MazeDataset.__len__"), (MD, "MazeDataset.__getitem__"), (MD, "MazeDataset.__init__"), (MD, "MazeDataset.update_self_config")})
+
+# one recorded filter application
+ENTRY = T.PyDictT(name=T.Str, args=T.ObjT("args"), kwargs=T.ObjT("kwargs"))
+CFGF = T.RecT("MazeDatasetConfig", grid_n=T.Nat, n_mazes=T.Int, applied_filters=T.ListT(ENTRY))
+DS = T.RecT("MazeDataset", cfg=CFGF, mazes=T.ListT(SOLVED), generation_metadata_collected=T.ObjT("meta"))
+
+_PROVENANCE = {
+    # the result's configuration records the filter name and arguments after the entries already there, with an updated maze count
+    "C08.provenance.len": "len(result.cfg.applied_filters) == len(dataset.cfg.applied_filters) + 1",
+    "C08.provenance.kept": "forall(lambda t: result.cfg.applied_filters[t]['name'] == dataset.cfg.applied_filters[t]['name']"
+    " and result.cfg.applied_filters[t]['args'] == dataset.cfg.applied_filters[t]['args']"
+    " and result.cfg.applied_filters[t]['kwargs'] == dataset.cfg.applied_filters[t]['kwargs'], (0, len(dataset.cfg.applied_filters)))",
+    "C08.count-updated": "result.cfg.n_mazes == len(result.mazes)",
+}
 
 
 @contract(MD, "MazeDatasetFilters.path_length")
@@ -22,17 +43,105 @@ class start_end_distance:
     result = T.Bool
     props = ["C08"]
 
-DS = T.RecT("MazeDataset", cfg=CFG, mazes=T.ListT(SOLVED), generation_metadata_collected=T.Const(None))
+
+@contract(MD, "register_maze_filter.wrapper")
+class maze_filter_wrapper:
+    """the wrapper every per-maze filter (path_length, start_end_distance) runs through; `method` is an arbitrary pure predicate"""
+    params = dict(dataset=DS, method=T.PredT(), args=T.ObjT("args"), kwargs=T.ObjT("kwargs"))
+    ensures = {
+        "C08.select": "is_filter(result.mazes, dataset.mazes, lambda k: method(dataset.mazes[k], *args, **kwargs))",
+        "C08.provenance.entry": "result.cfg.applied_filters[len(dataset.cfg.applied_filters)]['name'] == method.__name__"
+        " and result.cfg.applied_filters[len(dataset.cfg.applied_filters)]['args'] == args"
+        " and result.cfg.applied_filters[len(dataset.cfg.applied_filters)]['kwargs'] == kwargs",
+        **_PROVENANCE,
+    }
+    props = ["C08"]
+
+
+@contract("maze_dataset/dataset/dataset.py", "register_dataset_filter.wrapper")
+class dataset_filter_wrapper:
+    """the wrapper every whole-dataset filter runs through; `method` is an arbitrary function returning a dataset"""
+    params = dict(dataset=DS, method=T.FuncT(DS), args=T.ObjT("args"), kwargs=T.ObjT("kwargs"))
+    ensures = {
+        "C08.dataset-filter.mazes": "same_value(result.mazes, method(dataset, *args, **kwargs).mazes)",
+        "C08.provenance.len": "len(result.cfg.applied_filters) == len(method(dataset, *args, **kwargs).cfg.applied_filters) + 1",
+        "C08.provenance.kept": "forall(lambda t: result.cfg.applied_filters[t]['name'] == method(dataset, *args, **kwargs).cfg.applied_filters[t]['name']"
+        " and result.cfg.applied_filters[t]['args'] == method(dataset, *args, **kwargs).cfg.applied_filters[t]['args']"
+        " and result.cfg.applied_filters[t]['kwargs'] == method(dataset, *args, **kwargs).cfg.applied_filters[t]['kwargs'], (0, len(method(dataset, *args, **kwargs).cfg.applied_filters)))",
+        "C08.provenance.entry": "result.cfg.applied_filters[len(method(dataset, *args, **kwargs).cfg.applied_filters)]['name'] == method.__name__"
+        " and result.cfg.applied_filters[len(method(dataset, *args, **kwargs).cfg.applied_filters)]['args'] == args"
+        " and result.cfg.applied_filters[len(method(dataset, *args, **kwargs).cfg.applied_filters)]['kwargs'] == kwargs",
+        "C08.count-updated": "result.cfg.n_mazes == len(result.mazes)",
+    }
+    props = ["C08"]
+
+
+_LENGTHS = "np.array([len(m.solution) for m in dataset.mazes])"
+
+
+@contract(MD, "MazeDatasetFilters.cut_percentile_shortest")
+class cut_percentile_shortest:
+    params = dict(dataset=DS, percentile=T.Real)
+    ensures = {
+        # strictly longer than the truncated p-th length percentile (np.percentile is the trusted meaning of "percentile")
+        "C08.cut_percentile": f"is_filter(result.mazes, dataset.mazes, lambda k: dataset.mazes[k].solution.shape[0] > int(np.percentile({_LENGTHS}, percentile)))",
+        "C08.cfg-kept": "same_value(result.cfg, dataset.cfg)",
+    }
+    props = ["C08"]
+
+
+@contract(MD, "MazeDatasetFilters.truncate_count")
+class truncate_count:
+    params = dict(dataset=DS, max_count=T.Nat)
+    ensures = {
+        "C08.truncate.len": "len(result.mazes) == ite(max_count <= len(dataset.mazes), max_count, len(dataset.mazes))",
+        "C08.truncate.items": "forall(lambda k: same_value(result.mazes[k], dataset.mazes[k]), (0, len(result.mazes)))",
+        "C08.cfg-kept": "same_value(result.cfg, dataset.cfg)",
+    }
+    props = ["C08"]
+
+
+# two mazes are "within the thresholds": same shape and at most that many differing entries, for the connection lists or the solutions
 _CLOSE = ("((minimum_difference_connection_list is not None and same_shape(dataset.mazes[{a}].connection_list, dataset.mazes[{b}].connection_list)"
           " and n_diff(dataset.mazes[{a}].connection_list, dataset.mazes[{b}].connection_list) <= minimum_difference_connection_list)"
           " or (minimum_difference_solution is not None and same_shape(dataset.mazes[{a}].solution, dataset.mazes[{b}].solution)"
           " and n_diff(dataset.mazes[{a}].solution, dataset.mazes[{b}].solution) <= minimum_difference_solution))")
+_N = "len(dataset.mazes)"
+# keep a maze only if no LATER maze is within the thresholds
+_KEEP = "not exists(lambda b: " + _CLOSE.format(a="a", b="b") + f", (a + 1, {_N}))"
 
 
 @contract(MD, "MazeDatasetFilters.remove_duplicates")
 class remove_duplicates:
     params = dict(dataset=DS, minimum_difference_connection_list=T.OneOf(T.NoneT(), T.Int), minimum_difference_solution=T.OneOf(T.NoneT(), T.Int), _max_dataset_len_threshold=T.Int)
-    ensures = {}
-    raises = {"ValueError": "len(dataset.mazes) > _max_dataset_len_threshold"}
-    result = DS
+    ensures = {
+        "C08.remove_duplicates": f"is_filter(result.mazes, dataset.mazes, lambda a: {_KEEP})",
+        "C08.cfg-kept": "same_value(result.cfg, dataset.cfg)",
+    }
+    raises = {"ValueError": f"{_N} > _max_dataset_len_threshold"}
+    loops = {
+        0: Loop(
+            head="for i, maze_a in enumerate(dataset.mazes)",
+            havoc=dict(unique_mazes=lambda env: T.FiltT(env["dataset"].fields["mazes"])),
+            inv={"kept-so-far": f"is_filter(unique_mazes, dataset.mazes, lambda a: {_KEEP}, _k)"},
+        ),
+        1: Loop(
+            head="for maze_b in dataset.mazes[i + 1 :]",
+            havoc=dict(a_unique=T.Bool),
+            inv={"no-close-maze-so-far": "a_unique and forall(lambda b: not " + _CLOSE.format(a="i", b="b") + ", (i + 1, i + 1 + _k))"},
+        ),
+    }
+    props = ["C08"]
+
+
+@contract(MD, "MazeDataset.custom_maze_filter")
+class custom_maze_filter:
+    params = dict(self=DS, method=T.PredT(), kwargs=T.ObjT("kwargs"))
+    lets = dict(dataset="self")
+    ensures = {
+        "C08.select": "is_filter(result.mazes, self.mazes, lambda k: method(self.mazes[k], **kwargs))",
+        "C08.provenance.entry": "result.cfg.applied_filters[len(self.cfg.applied_filters)]['name'] == '__custom__:' + method.__name__"
+        " and result.cfg.applied_filters[len(self.cfg.applied_filters)]['kwargs'] == kwargs",
+        **_PROVENANCE,
+    }
     props = ["C08"]
